@@ -760,6 +760,9 @@ type c15Gen struct {
 	rejected int
 	jitter   int
 	disrupt  int
+	foreign    []c15Entry // entries of the last validator-set update that was ignored while the configured client id was empty
+	foreignH   int64
+	wantClient string // the client id the bridge info of this case currently carries ("" = not completed yet)
 	retired  []c15Entry // validators (with their last power) that left at the last rotating refresh
 	attack   int        // number of upcoming updates to be signed only by the retired validators
 }
@@ -860,6 +863,12 @@ func (g *c15Gen) junkify(m map[uint64][]byte) {
 func (g *c15Gen) oracleOp() C15Op {
 	ce, r := g.ce, g.r
 	o := C15Op{Kind: "oracle", Blk: g.blk}
+	// the validators commits are built from: the installed set, or - while the bridge info has an EMPTY
+	// client id and some client's update was (rightly) ignored - the validators of that ignored update
+	src, base, foreign := g.inSet, g.setH, false
+	if ce.HasInfo && ce.ClientID == "" && len(g.foreign) > 0 && r.Chance(80) {
+		src, base, foreign = g.foreign, g.foreignH, true
+	}
 	// 72% of the updates are well-formed in sender, height and timestamp; the others deviate in exactly one
 	dev := r.Weighted([]int{72, 7, 9, 12})
 	if g.attack > 0 && len(g.retired) > 0 {
@@ -898,9 +907,9 @@ func (g *c15Gen) oracleOp() C15Op {
 	}
 	switch hw {
 	case 0:
-		o.Height = uint64(g.setH + int64(r.Intn(4)))
+		o.Height = uint64(base + int64(r.Intn(4)))
 	case 1, 2:
-		o.Height = uint64(g.setH - 1 - int64(r.Intn(2)))
+		o.Height = uint64(base - 1 - int64(r.Intn(2)))
 	case 3:
 		o.Height = 0
 	case 4:
@@ -958,6 +967,9 @@ func (g *c15Gen) oracleOp() C15Op {
 	}
 	notes := []string{"all-honest", "subset", "perturbed", "dup-attack", "unsigned-mix", "retired-only"}
 	o.Note = notes[shape]
+	if foreign {
+		o.Note = "foreign-set+" + o.Note
+	}
 	chain := ce.Chain
 	h1 := int64(o.Height) - 1
 	mk := func(val int, drop int) C15Vote {
@@ -966,7 +978,7 @@ func (g *c15Gen) oracleOp() C15Op {
 		return C15Vote{Addr: u.Addr, Flag: int32(cmtproto.BlockIDFlagCommit), Ext: ext, Sig: ce.sign(u, chain, h1, int64(o.Round), ext)}
 	}
 	var votes []C15Vote
-	members := append([]c15Entry{}, g.inSet...)
+	members := append([]c15Entry{}, src...)
 	// shuffle
 	for i := len(members) - 1; i > 0; i-- {
 		j := r.Intn(i + 1)
@@ -986,7 +998,7 @@ func (g *c15Gen) oracleOp() C15Op {
 		}
 	case 1, 3: // subset whose power is near the two-thirds line
 		total := new(big.Int)
-		for _, en := range g.inSet {
+		for _, en := range src {
 			total.Add(total, big.NewInt(en.Power))
 		}
 		acc := new(big.Int)
@@ -1029,12 +1041,12 @@ func (g *c15Gen) oracleOp() C15Op {
 		// prices but in ONE defective way (so that dropping a single check lets the update through);
 		// repeated entries of the signed votes get the summed power over the first threshold
 		total := new(big.Int)
-		for _, en := range g.inSet {
+		for _, en := range src {
 			total.Add(total, big.NewInt(en.Power))
 		}
 		acc := new(big.Int)
 		defect := r.Intn(5)
-		o.Note = "unsigned-mix-" + []string{"noncommit-ext-nosig", "noncommit-ext-forged", "commit-forged", "commit-nosig", "commit-swapped"}[defect]
+		o.Note = map[bool]string{false: "", true: "foreign-set+"}[foreign] + "unsigned-mix-" + []string{"noncommit-ext-nosig", "noncommit-ext-forged", "commit-forged", "commit-nosig", "commit-swapped"}[defect]
 		var signed []C15Vote
 		for _, en := range members {
 			nxt := new(big.Int).Add(acc, big.NewInt(en.Power))
@@ -1175,7 +1187,7 @@ func (g *c15Gen) oracleOp() C15Op {
 				var outs []int
 				for i := range ce.Vals {
 					in := false
-					for _, en := range g.inSet {
+					for _, en := range src {
 						if en.Val == i {
 							in = true
 						}
@@ -1257,6 +1269,18 @@ func (g *c15Gen) newSet() []c15Entry {
 	return out
 }
 
+// noteIgnored remembers the validators of an update that was ignored while the configured client id is empty
+func (g *c15Gen) noteIgnored(o C15Op) {
+	if !g.ce.HasInfo || g.ce.ClientID != "" || o.Client == "" || o.HHeight <= 0 || len(o.Entries) == 0 {
+		return
+	}
+	keep := g.inSet
+	keepH := g.setH
+	g.applySet(o)
+	g.foreign, g.foreignH = g.inSet, g.setH
+	g.inSet, g.setH = keep, keepH
+}
+
 func (g *c15Gen) applySet(o C15Op) {
 	// the harness's expectation of what is stored after a successful replacement
 	last := map[int]int64{}
@@ -1303,7 +1327,11 @@ func genC15(seed uint64, tier string, outdir string) *Report {
 		}
 		// setup (part of the recorded history)
 		do(C15Op{Kind: "execs", Execs: []uint64{1, 2}})
-		do(C15Op{Kind: "info", Oracle: true, Chain: "l1chain", Client: "07-tendermint-0", ClientID: 1})
+		g.wantClient = "07-tendermint-0"
+		if r.Chance(20) { // bridge info registered without an L1 client id
+			g.wantClient = ""
+		}
+		do(C15Op{Kind: "info", Oracle: true, Chain: "l1chain", Client: g.wantClient, ClientID: c15StrID(g.wantClient)})
 		for _, p := range []int{0, 1, 2} {
 			do(C15Op{Kind: "mkpair", Pair: p})
 		}
@@ -1313,6 +1341,8 @@ func genC15(seed uint64, tier string, outdir string) *Report {
 		first := C15Op{Kind: "hostset", Client: "07-tendermint-0", ClientID: 1, HHeight: int64(5 + r.Intn(20)), Entries: g.newSet()}
 		if do(first); ce.LastEffective {
 			g.applySet(first)
+		} else {
+			g.noteIgnored(first)
 		}
 		for i := 0; i < nOps; i++ {
 			// disruptions of the environment (oracle off, no bridge info, no executors) are undone after two operations
@@ -1324,8 +1354,22 @@ func genC15(seed uint64, tier string, outdir string) *Report {
 						do(C15Op{Kind: "execs", Execs: []uint64{1, 2}})
 					}
 					if !ce.HasInfo || !ce.OracleOn {
-						do(C15Op{Kind: "info", Oracle: true, Chain: "l1chain", Client: "07-tendermint-0", ClientID: 1})
+						do(C15Op{Kind: "info", Oracle: true, Chain: "l1chain", Client: g.wantClient, ClientID: c15StrID(g.wantClient)})
 					}
+				}
+			}
+			// a bridge info without client id is completed later (as SetBridgeInfo allows), then the set is refreshed legitimately
+			if ce.HasInfo && ce.ClientID == "" && g.wantClient == "" && r.Chance(12) {
+				g.wantClient = "07-tendermint-0"
+				do(C15Op{Kind: "info", Oracle: true, Chain: ce.Chain, Client: g.wantClient, ClientID: 1})
+				hh := g.setH
+				if g.foreignH > hh {
+					hh = g.foreignH
+				}
+				o := C15Op{Kind: "hostset", Client: g.wantClient, ClientID: 1, HHeight: hh + int64(1+r.Intn(3)), Entries: g.newSet()}
+				if do(o); ce.LastEffective {
+					g.applySet(o)
+					g.retired, g.attack = nil, 0
 				}
 			}
 			switch r.Weighted([]int{70, 14, 5, 7, 4}) {
@@ -1381,6 +1425,8 @@ func genC15(seed uint64, tier string, outdir string) *Report {
 					} else {
 						g.attack = 0
 					}
+				} else {
+					g.noteIgnored(o)
 				}
 			case 2:
 				var ex []uint64
@@ -1393,11 +1439,14 @@ func genC15(seed uint64, tier string, outdir string) *Report {
 			case 3:
 				switch r.Weighted([]int{40, 35, 10, 10, 5}) {
 				case 0:
-					do(C15Op{Kind: "info", Oracle: false, Chain: ce.Chain, Client: "07-tendermint-0", ClientID: 1})
+					do(C15Op{Kind: "info", Oracle: false, Chain: ce.Chain, Client: g.wantClient, ClientID: c15StrID(g.wantClient)})
 				case 1:
-					do(C15Op{Kind: "info", Oracle: true, Chain: "l1chain", Client: "07-tendermint-0", ClientID: 1})
+					do(C15Op{Kind: "info", Oracle: true, Chain: "l1chain", Client: g.wantClient, ClientID: c15StrID(g.wantClient)})
 				case 2:
-					do(C15Op{Kind: "info", Oracle: true, Chain: "otherchain", Client: "07-tendermint-0", ClientID: 1})
+					if r.Chance(25) { // the client id is (still / again) empty: every client's update must be ignored
+						g.wantClient = ""
+					}
+					do(C15Op{Kind: "info", Oracle: true, Chain: "otherchain", Client: g.wantClient, ClientID: c15StrID(g.wantClient)})
 				case 3:
 					do(C15Op{Kind: "info", Oracle: true, Chain: "l1chain", Client: "07-tendermint-9", ClientID: 2})
 				case 4:
